@@ -353,14 +353,7 @@ def type_roles(repo, res):
     key = f"{f.key}:real-imag-cond"
     res.ob(key)
     res.notes.append("extract_dtype is decided by DTYPE-MERGE (interpreted on all operand type combinations)")
-    eg = repo.mod("ffcx.codegeneration.expression_generator")
-    f = eg.func("ExpressionGenerator.generate_partition")
-    key = f"{f.key}:real-imag-cond"
-    res.ob(key)
-    s = ast.unparse(f.node)
-    if not re.search(r"if is_cond:\s+dtype = L\.DataType\.BOOL\s+elif is_real:\s+dtype = L\.DataType\.REAL\s+else:\s+dtype = L\.DataType\.SCALAR", s) \
-            or "is_real = isinstance(v, (ufl.classes.Real, ufl.classes.Imag))" not in s:
-        res.fail(key, "expression intermediates: conditions BOOL, Real/Imag REAL, otherwise SCALAR", eg.line(f.node))
+    res.notes.append("the types of expression-kernel intermediates are decided by PARTITION-DTYPE (generate_partition of both generators interpreted on a typed graph)")
     # merge_dtypes promotion order
     lm = repo.mod(LNODES)
     f = lm.func("merge_dtypes")
